@@ -448,6 +448,9 @@ def nondeterminism_of(fn: ast.FunctionDef) -> list:
                 if isinstance(t, ast.Name):
                     set_vars.add(t.id)
 
+    def is_keys_view(e):
+        return isinstance(e, ast.Call) and isinstance(e.func, ast.Attribute) and e.func.attr in ('keys', 'items') and not e.args
+
     def is_set_expr(e):
         if isinstance(e, (ast.Set, ast.SetComp)):
             return True
@@ -455,7 +458,20 @@ def nondeterminism_of(fn: ast.FunctionDef) -> list:
             return True
         if isinstance(e, ast.Name) and e.id in set_vars:
             return True
+        # set algebra: the result of - & | ^ on a set or on a dict view is a set (its order depends on the hash seed)
+        if isinstance(e, ast.BinOp) and isinstance(e.op, (ast.Sub, ast.BitAnd, ast.BitOr, ast.BitXor)) and \
+                (is_set_expr(e.left) or is_set_expr(e.right) or is_keys_view(e.left) or is_keys_view(e.right)):
+            return True
+        if isinstance(e, ast.Call) and isinstance(e.func, ast.Attribute) and e.func.attr in (
+                'difference', 'intersection', 'union', 'symmetric_difference') and (is_set_expr(e.func.value) or is_keys_view(e.func.value)):
+            return True
         return False
+    for _ in range(2):
+        for st in ast.walk(fn):
+            if isinstance(st, ast.Assign) and is_set_expr(st.value):
+                for t in st.targets:
+                    if isinstance(t, ast.Name):
+                        set_vars.add(t.id)
     for st in ast.walk(fn):
         if isinstance(st, (ast.For, ast.comprehension)) and is_set_expr(st.iter):
             out.append(('iteration over a set', st.iter))
